@@ -136,3 +136,15 @@ Extract/DispExport.vos Extract/DispExport.vok Extract/DispExport.required_vos: E
 Extract/Drv_export.vo Extract/Drv_export.glob Extract/Drv_export.v.beautified Extract/Drv_export.required_vo: Extract/Drv_export.v Engine/Regex.vo Extract/Val.vo Extract/DispBase.vo Extract/DispExport.vo
 Extract/Drv_export.vio: Extract/Drv_export.v Engine/Regex.vio Extract/Val.vio Extract/DispBase.vio Extract/DispExport.vio
 Extract/Drv_export.vos Extract/Drv_export.vok Extract/Drv_export.required_vos: Extract/Drv_export.v Engine/Regex.vos Extract/Val.vos Extract/DispBase.vos Extract/DispExport.vos
+Extract/DispTract.vo Extract/DispTract.glob Extract/DispTract.v.beautified Extract/DispTract.required_vo: Extract/DispTract.v Engine/Regex.vo PyRt/Str.vo Extract/Val.vo Extract/DispBase.vo Extract/DispTrs.vo Extract/DispContainers.vo Model/Trs.vo Model/Unpack.vo Model/TractPre.vo Model/TractParse.vo
+Extract/DispTract.vio: Extract/DispTract.v Engine/Regex.vio PyRt/Str.vio Extract/Val.vio Extract/DispBase.vio Extract/DispTrs.vio Extract/DispContainers.vio Model/Trs.vio Model/Unpack.vio Model/TractPre.vio Model/TractParse.vio
+Extract/DispTract.vos Extract/DispTract.vok Extract/DispTract.required_vos: Extract/DispTract.v Engine/Regex.vos PyRt/Str.vos Extract/Val.vos Extract/DispBase.vos Extract/DispTrs.vos Extract/DispContainers.vos Model/Trs.vos Model/Unpack.vos Model/TractPre.vos Model/TractParse.vos
+Extract/Drv_tract.vo Extract/Drv_tract.glob Extract/Drv_tract.v.beautified Extract/Drv_tract.required_vo: Extract/Drv_tract.v Engine/Regex.vo Extract/Val.vo Extract/DispBase.vo Extract/DispAliquot.vo Extract/DispTract.vo
+Extract/Drv_tract.vio: Extract/Drv_tract.v Engine/Regex.vio Extract/Val.vio Extract/DispBase.vio Extract/DispAliquot.vio Extract/DispTract.vio
+Extract/Drv_tract.vos Extract/Drv_tract.vok Extract/Drv_tract.required_vos: Extract/Drv_tract.v Engine/Regex.vos Extract/Val.vos Extract/DispBase.vos Extract/DispAliquot.vos Extract/DispTract.vos
+Proofs/C05/Unpack.vo Proofs/C05/Unpack.glob Proofs/C05/Unpack.v.beautified Proofs/C05/Unpack.required_vo: Proofs/C05/Unpack.v Engine/Regex.vo Gen/Patterns.vo PyRt/Str.vo Gen/Tables.vo Model/Trs.vo Model/Unpack.vo
+Proofs/C05/Unpack.vio: Proofs/C05/Unpack.v Engine/Regex.vio Gen/Patterns.vio PyRt/Str.vio Gen/Tables.vio Model/Trs.vio Model/Unpack.vio
+Proofs/C05/Unpack.vos Proofs/C05/Unpack.vok Proofs/C05/Unpack.required_vos: Proofs/C05/Unpack.v Engine/Regex.vos Gen/Patterns.vos PyRt/Str.vos Gen/Tables.vos Model/Trs.vos Model/Unpack.vos
+Properties/C05.vo Properties/C05.glob Properties/C05.v.beautified Properties/C05.required_vo: Properties/C05.v Engine/Regex.vo Gen/Patterns.vo PyRt/Str.vo Gen/Tables.vo Model/Trs.vo Model/Unpack.vo Proofs/C05/Unpack.vo
+Properties/C05.vio: Properties/C05.v Engine/Regex.vio Gen/Patterns.vio PyRt/Str.vio Gen/Tables.vio Model/Trs.vio Model/Unpack.vio Proofs/C05/Unpack.vio
+Properties/C05.vos Properties/C05.vok Properties/C05.required_vos: Properties/C05.v Engine/Regex.vos Gen/Patterns.vos PyRt/Str.vos Gen/Tables.vos Model/Trs.vos Model/Unpack.vos Proofs/C05/Unpack.vos
